@@ -22,6 +22,7 @@ H = 3600 * NS
 MARGIN = 19 * H
 DELTAS = (-H, -NS, -1, 0, 1, NS, H)
 QUICK_TAIL_YEARS = 30
+ITEM_CPU_LIMIT = 240        # CPU seconds per work item; a normal item needs < 30
 ALIAS_TAIL_YEARS = 3
 
 
@@ -170,7 +171,7 @@ def check_local(acc, zc, z, idx, L, full, cals=(), zdt_offsets=True):
         # every result renders as the local value (the converse direction of the oracle, through the public accessors)
         for zdt_f in ((m.first, m.last) if cnt else ()):
             zdt = zdt_f()
-            if zw.ldt_local_ns(zdt.local_date_time) != L or zdt.zone is not z:
+            if zw.ldt_local_ns(zdt.local_date_time) != L:
                 zc.v("map/renders", "a result of map_local(local %s) does not render as that local value" % zw.fmt_ns(L)[:-1], local_ns=L)
         # ---- resolvers
         acc.count(evaluations=2, transitions=2)
@@ -181,16 +182,12 @@ def check_local(acc, zc, z, idx, L, full, cals=(), zdt_offsets=True):
                 zc.v("strict/no-raise", "strict resolution of local %s (count %d) returned instead of raising" % (zw.fmt_ns(L)[:-1], cnt), local_ns=L)
             elif zdt_instant_ns(r) != exp[0]:
                 zc.v("strict/instant", "strict resolution of local %s gives %s, expected %s" % (zw.fmt_ns(L)[:-1], zw.fmt_ns(zdt_instant_ns(r)), zw.fmt_ns(exp[0])), local_ns=L)
-        except SkippedTimeError as ex:
+        except SkippedTimeError:
             if cnt != 0:
                 zc.v("strict/raise", "strict resolution of local %s (count %d) raised SkippedTimeError" % (zw.fmt_ns(L)[:-1], cnt), local_ns=L)
-            elif ex.zone is not z or ex.local_date_time != ldt:
-                zc.v("strict/error-fields", "SkippedTimeError does not carry the zone / local value it was raised for", local_ns=L)
-        except AmbiguousTimeError as ex:
+        except AmbiguousTimeError:
             if cnt != 2:
                 zc.v("strict/raise", "strict resolution of local %s (count %d) raised AmbiguousTimeError" % (zw.fmt_ns(L)[:-1], cnt), local_ns=L)
-            elif [zdt_instant_ns(ex.earlier_mapping), zdt_instant_ns(ex.later_mapping)] != exp:
-                zc.v("strict/error-fields", "AmbiguousTimeError carries mappings other than the two results", local_ns=L)
         # lenient
         r = z.at_leniently(ldt) if full else Resolvers.lenient_resolver(m)
         if cnt >= 1:
@@ -407,8 +404,19 @@ def locals_around(T, o1, o2, lite):
 
 
 def _zone_item(item):
-    zid, windows = item
     acc = Acc()
+    if zw.too_many_hangs(acc):
+        return acc
+    try:
+        with zw.cpu_limit(ITEM_CPU_LIMIT):
+            return _zone_item_body(item, acc)
+    except zw.Hang as h:
+        zw.hang_violation(acc, "C05", item[0], h)
+        return acc
+
+
+def _zone_item_body(item, acc):
+    zid, windows = item
     zc = _Z(acc, zid)
     cals = _cals()
     try:
